@@ -30,8 +30,8 @@ DEEP = ('RelevantReadingsSuffice', 'CacheStable')
 
 
 def mc_cfg(inv: T.Sequence[str], props: T.Sequence[str] = (), **kw: str) -> str:
-    c = {'MaxSteps': '1', 'VBIN': '{0, 3}', 'VA': '{0, 3}', 'VSD': '{0}', 'ProvA': '{"none", "ovr"}', 'BProfiles': '{"nowhere"}',
-         'WMs': '{"default", "nofallback", "forcefallback"}', 'FFFs': '{{}}', 'CrossFamily': 'FALSE',
+    c = {'MaxSteps': '1', 'VBIN': '{0, 3}', 'VXD': '{0, 3}', 'VA': '{0, 3}', 'VSD': '{0}', 'ProvA': '{"none", "ovr"}',
+         'BProfiles': '{"nowhere"}', 'WMs': '{"default", "nofallback", "forcefallback"}', 'FFFs': '{{}}', 'CrossFamily': 'FALSE',
          'NameSeqIds': '{"a"}', 'MCReqs': '{"true", "false", "disabled"}', 'MCCons': '{"any", "ge2"}',
          'MCSites': '{"root", "sd"}', 'MCDirs': '{TRUE, FALSE}', 'SubV': '3', 'MainV': '1', 'ProjV': '3'}
     c.update(kw)
@@ -42,31 +42,33 @@ def mc_cfg(inv: T.Sequence[str], props: T.Sequence[str] = (), **kw: str) -> str:
 
 def model_runs(tier: str) -> T.List[T.Tuple[str, str]]:
     """(name, cfg text) of the model-checking runs of a tier.  Sizes follow the measured cost of ~0.1 ms per evaluation
-    of Step (about 300 evaluations per state for the cheap laws, thousands for the deep ones)."""
+    of Step (about 300 evaluations per state for the cheap laws, thousands for the two deep ones)."""
+    frozen = ('UsedNamesAreFrozen',)
     if tier == 'quick':
         return [
-            ('native', mc_cfg(CHEAP, ('UsedNamesAreFrozen',), VA='{0, 1, 3}', ProvA='{"none", "ovr"}',
-                              BProfiles='{"nowhere", "path3"}', NameSeqIds='{"a", "ab"}', WMs='{"default"}')),
-            ('forced', mc_cfg(CHEAP, VA='{0, 3}', ProvA='{"ovr", "noovr", "broken"}', BProfiles='{"prov"}',
-                              NameSeqIds='{"a", "ba"}', WMs='{"nofallback", "forcefallback"}', FFFs='{{}, {"a"}}',
-                              MCDirs='{FALSE}')),
-            ('cross', mc_cfg(CHEAP + ('MachineLaws',), VA='{0, 3}', CrossFamily='TRUE', WMs='{"default", "forcefallback"}',
-                             MCCons='{"any"}')),
-            ('deep', mc_cfg(DEEP + ('NativeLaws',), VA='{0, 3}', ProvA='{"ovr"}', BProfiles='{"path3"}', NameSeqIds='{"a", "ab"}',
+            # native builds, two names, every combination of the system sources of "a" (incl. wrong versions)
+            ('native', mc_cfg(CHEAP, frozen, VXD='{0, 1, 3}', VA='{0, 1, 3}', BProfiles='{"nowhere", "path3"}',
+                              NameSeqIds='{"a", "ab"}', WMs='{"default"}')),
+            # providers of every style under nofallback / forcefallback / force_fallback_for
+            ('forced', mc_cfg(CHEAP, VXD='{0}', ProvA='{"ovr", "noovr", "broken"}', BProfiles='{"prov"}',
+                              NameSeqIds='{"a", "ba"}', WMs='{"nofallback", "forcefallback"}', FFFs='{{}, {"a"}}', MCDirs='{FALSE}')),
+            # cross builds: two machines, native and cross file
+            ('cross', mc_cfg(CHEAP + ('MachineLaws',), CrossFamily='TRUE', WMs='{"default", "forcefallback"}', MCCons='{"any"}')),
+            ('deep', mc_cfg(DEEP + ('NativeLaws',), VXD='{0}', ProvA='{"ovr"}', BProfiles='{"path3"}', NameSeqIds='{"a", "ab"}',
                             WMs='{"default"}', MCSites='{"root"}', MCDirs='{FALSE}', MCReqs='{"true", "false"}')),
         ]
     return [
-        ('native', mc_cfg(CHEAP, ('UsedNamesAreFrozen',), MaxSteps='2', VA='{0, 1, 3}', VSD='{0, 3}', ProvA='{"none", "ovr"}',
-                          BProfiles='{"nowhere", "path3", "root1path3"}', NameSeqIds='{"a", "ab", "ba"}',
-                          WMs='{"default", "nofallback"}')),
-        ('forced', mc_cfg(CHEAP, ('UsedNamesAreFrozen',), MaxSteps='2', VA='{0, 3}', ProvA='{"none", "ovr", "noovr", "broken"}',
-                          BProfiles='{"nowhere", "prov", "provpath1"}', NameSeqIds='{"a", "ab", "ba"}',
-                          WMs='{"default", "nofallback", "forcefallback"}', FFFs='{{}, {"a"}, {"b"}}')),
-        ('cross', mc_cfg(CHEAP + ('MachineLaws',), ('UsedNamesAreFrozen',), MaxSteps='2', VA='{0, 1, 3}', CrossFamily='TRUE',
-                         ProvA='{"none", "ovr", "broken"}', WMs='{"default", "nofallback", "forcefallback"}')),
-        ('deep', mc_cfg(DEEP + ('NativeLaws',), MaxSteps='1', VA='{0, 3}', VSD='{0, 3}', ProvA='{"none", "ovr"}',
-                        BProfiles='{"path3", "prov"}', NameSeqIds='{"a", "ab"}', WMs='{"default", "forcefallback"}',
-                        MCDirs='{FALSE}')),
+        ('native', mc_cfg(CHEAP, frozen, MaxSteps='2', VXD='{0, 1, 3}', VA='{0, 1, 3}', BProfiles='{"nowhere", "path3"}',
+                          NameSeqIds='{"a", "ab"}', WMs='{"default"}', MCSites='{"root"}')),
+        # the two calling directories (root / subdir) with scripts of both versions in each
+        ('sites', mc_cfg(CHEAP, VSD='{0, 1, 3}', BProfiles='{"nowhere", "root1path3"}', NameSeqIds='{"a", "ba"}',
+                         WMs='{"default"}')),
+        ('forced', mc_cfg(CHEAP, frozen, MaxSteps='2', VXD='{0}', ProvA='{"none", "ovr", "noovr", "broken"}',
+                          BProfiles='{"prov", "provpath1"}', NameSeqIds='{"a", "ab", "ba"}', FFFs='{{}, {"a"}}', MCDirs='{FALSE}')),
+        ('cross', mc_cfg(CHEAP + ('MachineLaws',), frozen, MaxSteps='2', CrossFamily='TRUE', VBIN='{0, 1, 3}',
+                         ProvA='{"none", "ovr", "broken"}')),
+        ('deep', mc_cfg(DEEP + ('NativeLaws',), VXD='{0}', BProfiles='{"nowhere", "path3"}', NameSeqIds='{"a", "ab"}',
+                        WMs='{"default", "forcefallback"}', MCSites='{"root"}', MCDirs='{FALSE}')),
     ]
 
 
@@ -225,24 +227,31 @@ def nontrivial(c: T.Dict[str, T.Any]) -> bool:
     return len(kinds) > 1 or len(subs) > 1 or any(k not in ('found:path', 'notfound') for k in kinds)
 
 
-def run_and_judge(chk: Check, sessions: T.List[fd.Session], label: str, per_project: int, duds: bool) -> None:
-    rnd = random.Random(f'x08-layout-{chk.seed}-{label}')
-    groups: T.Dict[T.Tuple[str, bool], T.List[fd.Session]] = {}
-    for s in sessions:
-        groups.setdefault((s['env']['wm'], bool(s['env']['cross'])), []).append(s)
+def run_and_judge(chk: Check, parts: T.List[T.Tuple[str, T.List[fd.Session], bool]], per_project: int) -> None:
+    """parts: (label, sessions, with dud files).  All projects of all parts share one pool of workers."""
     jobs = []
-    for (wm, cross), ss in sorted(groups.items()):
-        rnd.shuffle(ss)
-        for n, part in enumerate(common.chunks(ss, per_project)):
-            jobs.append((f'{label}-{wm}-{int(cross)}-{n}', wm, cross, list(part), chk.seed, duds))
+    sessions: T.List[fd.Session] = []
+    duds_of: T.Dict[str, bool] = {}
+    for label, ss_all, duds in parts:
+        rnd = random.Random(f'x08-layout-{chk.seed}-{label}')
+        sessions += ss_all
+        groups: T.Dict[T.Tuple[str, bool], T.List[fd.Session]] = {}
+        for s in ss_all:
+            duds_of[s['id']] = duds
+            groups.setdefault((s['env']['wm'], bool(s['env']['cross'])), []).append(s)
+        for (wm, cross), ss in sorted(groups.items()):
+            rnd.shuffle(ss)
+            for n, part in enumerate(common.chunks(ss, per_project)):
+                jobs.append((f'{label}-{wm}-{int(cross)}-{n}', wm, cross, list(part), chk.seed, duds))
     observed: T.Dict[str, T.Dict[str, T.Any]] = {}
     totals = {'setups': 0, 'whole_run_died': 0, 'exit_status_observed': 0, 'unobserved': 0}
+    jobs.sort(key=lambda j: -len(j[3]))
     with ThreadPoolExecutor(max_workers=common.NCPU) as ex:
         for done, stats in ex.map(fd.worker, jobs):
             observed.update(done)
             for k in totals:
                 totals[k] += stats[k]
-    chk.extra[f'run_{label}'] = dict(totals, sessions=len(sessions))
+    chk.extra['meson_runs'] = dict(totals, sessions={label: len(ss) for label, ss, _ in parts})
     cases = []
     for s in sessions:
         o = observed.get(s['id'])
@@ -251,33 +260,35 @@ def run_and_judge(chk: Check, sessions: T.List[fd.Session], label: str, per_proj
         cases.append({'id': s['id'], 'env': s['env'], 'evs': s['evs'], 'obs': o['obs'], 'rc': o['rc'], 'died': o['died']})
     if len(cases) + totals['unobserved'] < len(sessions):
         raise MachineryError(f'X08: {len(sessions) - len(cases)} sessions were not observed')
-    bad, results = tlc_judge(cases, nproc=3)
+    bad, results = tlc_judge(cases, nproc=4)
     for i, r in enumerate(results):
-        chk.add_tlc(f'TraceFindProgram[{label}.{i}]', r, model=False)
+        chk.add_tlc(f'TraceFindProgram[{i}]', r, model=False)
     chk.traces += len(cases)
     chk.evaluations += sum(len(c['obs']) for c in cases)
     rejected = chk.extra.setdefault('sessions_rejected_by_signature', {})
     for c in cases:
         if nontrivial(c):
             chk.nontriv(fd.env_key(c['env']) + '|' + ';'.join(fd.ev_key(e) for e in c['evs']))
-    for c in cases[:: max(1, len(cases) // 3)][:3]:
+    for c in cases[:: max(1, len(cases) // 6)][:6]:
         chk.sample({'id': c['id'], 'environment': fd.env_key(c['env']), 'statements': [fd.ev_key(e) for e in c['evs']],
                     'observed': [pair(o) + (f"/{o['name']}/v{o['v']}" if o['kind'] == 'found' else '') for o in c['obs']],
                     'exit_status': c['rc']}, limit=9)
     by_id = {c['id']: c for c in cases}
     for v in bad:
         c = by_id.get(v['id'], {})
-        rejected[signature(v, c)] = rejected.get(signature(v, c), 0) + 1
-        chk.violation(signature(v, c), {'verdict': v, 'env': c.get('env'), 'evs': c.get('evs'), 'observed': c.get('obs'),
-                                        'rc': c.get('rc'), 'seed': chk.seed, 'duds': duds,
-                                        'statements': [fd.ev_key(e) for e in c.get('evs', [])]})
+        sig = signature(v, c)
+        rejected[sig] = rejected.get(sig, 0) + 1
+        chk.violation(sig, {'verdict': v, 'env': c.get('env'), 'evs': c.get('evs'), 'observed': c.get('obs'),
+                            'rc': c.get('rc'), 'seed': chk.seed, 'duds': duds_of.get(v['id'], False),
+                            'statements': [fd.ev_key(e) for e in c.get('evs', [])]})
     for c in cases:
         if c['died']:
             chk.violation('WholeRunDied|' + fd.ev_key(c['evs'][len(c['obs']) - 1]),
                           {'what': 'an error inside subproject(..., required: false) ended the whole configuration',
-                           'env': c['env'], 'evs': c['evs'], 'observed': c['obs'], 'rc': c['rc'], 'seed': chk.seed, 'duds': duds})
+                           'env': c['env'], 'evs': c['evs'], 'observed': c['obs'], 'rc': c['rc'], 'seed': chk.seed,
+                           'duds': duds_of.get(c['id'], False)})
     if totals['unobserved']:
-        chk.assumptions.append(f"{totals['unobserved']} sessions of part {label} were left unobserved after repeated dying runs "
+        chk.assumptions.append(f"{totals['unobserved']} sessions were left unobserved after repeated dying runs "
                                '(each dying run is itself reported)')
 
 
@@ -290,22 +301,25 @@ def main(chk: Check) -> None:
                 'the session are not all the same, or a provider subproject was configured, or an answer is neither "found on '
                 'PATH" nor "not found" (distinct abstract sessions)')
     rnd = random.Random(f'x08-sessions-{chk.seed}')
+    runs = model_runs(chk.tier)
+
+    def model(nc: T.Tuple[str, str]) -> common.TLCResult:
+        return run_tlc(SPECS / 'findprog', 'FindProgram_MC', cfg_text=nc[1], collect=['findprog_space.json'], timeout=5400,
+                       allow_violation=False)
+
+    with ThreadPoolExecutor(max_workers=len(runs)) as ex:
+        results = list(ex.map(model, runs))
     sessions: T.List[fd.Session] = []
-    for name, cfg in model_runs(chk.tier):
-        res = run_tlc(SPECS / 'findprog', 'FindProgram_MC', cfg_text=cfg, collect=['findprog_space.json'], timeout=5400,
-                      allow_violation=False)
+    for (name, _), res in zip(runs, results):
         chk.add_tlc(f'FindProgram_MC[{name}]', res)
         space = json.loads(res.collected['findprog_space.json'])
         chk.extra[f'model_{name}'] = {'environments': len(space['envs']), 'statements': len(space['events'])}
         if name == 'deep':
             continue
-        if quick:
-            sessions += sessions_from_space(space, 'A' + name[0], 150, 2, rnd)
-        else:
-            sessions += sessions_from_space(space, 'A' + name[0], None, 4 if len(space['envs']) < 1500 else 2, rnd)
-    run_and_judge(chk, sessions, 'A', 40 if quick else 80, duds=False)
-    run_and_judge(chk, random_sessions(500 if quick else 6000, random.Random(f'x08-random-{chk.seed}')), 'B',
-                  40 if quick else 80, duds=True)
+        sessions += sessions_from_space(space, 'A' + name[0], 150 if quick else None, 2 if quick else 6, rnd)
+    run_and_judge(chk, [('A', sessions, False),
+                        ('B', random_sessions(800 if quick else 6000, random.Random(f'x08-random-{chk.seed}')), True)],
+                  40 if quick else 80)
     chk.exhaustive = not quick
     chk.assumptions += [
         'one wrap per program name; the provider subproject overrides only that name (a provider that fails half way through '
